@@ -13,6 +13,8 @@ import (
 	"time"
 
 	"github.com/gaissmai/bart"
+	"github.com/slackhq/nebula/cert"
+	"github.com/slackhq/nebula/cert_test"
 	"github.com/slackhq/nebula/config"
 	"github.com/slackhq/nebula/header"
 	"github.com/slackhq/nebula/udp"
@@ -76,6 +78,8 @@ type VerifLH struct {
 	outside   *verifRecConn
 	scheduled atomic.Int64
 	cancel    context.CancelFunc
+	ca        cert.Certificate
+	caKey     []byte
 }
 
 // VerifNewLH: networks are the node's own overlay networks (certificate), settings the configuration maps
@@ -94,6 +98,10 @@ func VerifNewLH(networks []netip.Prefix, settings map[string]any) (v *VerifLH, e
 	nt := new(bart.Lite)
 	for _, n := range networks {
 		nt.Insert(n)
+	}
+	at := new(bart.Lite)
+	for _, n := range networks {
+		at.Insert(netip.PrefixFrom(n.Addr(), n.Addr().BitLen()))
 	}
 	cs := &CertState{myVpnNetworks: networks, myVpnNetworksTable: nt}
 	ctx, cancel := context.WithCancel(context.Background())
@@ -131,6 +139,7 @@ func VerifNewLH(networks []netip.Prefix, settings map[string]any) (v *VerifLH, e
 		hostMap:               hm,
 		myVpnNetworksTable:    nt,
 		myVpnNetworks:         networks,
+		myVpnAddrsTable:       at,
 		messageMetrics:        newMessageMetrics(),
 		outside:               v.outside,
 		sendRecvErrorConfig:   recvErrorAlways,
@@ -263,13 +272,35 @@ func (v *VerifLH) OutsideAccepts(src netip.AddrPort) bool {
 }
 
 // Roam: an authenticated packet arrived from src on the tunnel of vpns (a fresh HostInfo holding the list the
-// lighthouse has for it): the real readOutsidePackets gate followed by the real handleHostRoaming.
-func (v *VerifLH) Roam(vpns []netip.Addr, src netip.AddrPort) {
+// lighthouse has for it): the real readOutsidePackets gate followed by the real handleHostRoaming. Reports whether
+// src became the tunnel's remote (the data destination).
+func (v *VerifLH) Roam(vpns []netip.Addr, src netip.AddrPort) bool {
 	if !v.OutsideAccepts(src) {
-		return
+		return false
 	}
 	hi := &HostInfo{vpnAddrs: vpns, remotes: v.LH.QueryCache(vpns)}
 	v.f.handleHostRoaming(hi, ViaSender{UdpAddr: src})
+	return hi.GetRemote() == src
+}
+
+// HandshakeSourceAccepted: a handshake packet from src carrying a (really signed) certificate for vpns passes
+// readOutsidePackets' gate and the real validatePeerCert (the check both the responder and the initiator side use
+// before src becomes a remote).
+func (v *VerifLH) HandshakeSourceAccepted(vpns []netip.Addr, src netip.AddrPort) bool {
+	if !v.OutsideAccepts(src) {
+		return false
+	}
+	if v.ca == nil {
+		v.ca, _, v.caKey, _ = cert_test.NewTestCaCert(cert.Version2, cert.Curve_CURVE25519, time.Time{}, time.Time{}, nil, nil, nil)
+	}
+	nets := make([]netip.Prefix, len(vpns))
+	for i, a := range vpns {
+		nets[i] = netip.PrefixFrom(a, a.BitLen())
+	}
+	c, _, _, _ := cert_test.NewTestCert(cert.Version2, cert.Curve_CURVE25519, v.ca, v.caKey, "peer", time.Time{}, time.Time{}, nets, nil, nil)
+	hm := &HandshakeManager{f: v.f, l: verifRALogger}
+	_, _, ok := hm.validatePeerCert(ViaSender{UdpAddr: src}, &cert.CachedCertificate{Certificate: c})
+	return ok
 }
 
 // Block: a handshake to vpn was answered from a by the wrong host.
